@@ -1468,3 +1468,69 @@ def errkind_guarded(body, site):
             if body.find_path([0], {site}, removed_edges=others) is not None:
                 kinds |= ks
     return kinds
+
+
+def _type_len(ty):
+    """byte length a value of (a reference to) this type has when viewed as a slice, if the type fixes it"""
+    ty = str(ty)
+    m = re.search(r'\[u8; (\d+)\]', ty)
+    if m:
+        return int(m.group(1))
+    if 'GenericArray<u8' in ty and 'typenum' in ty:
+        bits = re.findall(r'typenum::(?:bit::)?B([01])\b', ty)
+        if bits:
+            return int(''.join(bits), 2)
+    return None
+
+
+def static_len(body, o, depth=8):
+    """length of the byte slice an operand refers to, when the program text fixes it: a fixed-size array (or typenum array), a
+    constant sub-range of anything (`x[a..b]`), an open range of a fixed-size array (`arr[a..]`). None = depends on a run-time length."""
+    pl = op_place(o)
+    if pl is None or depth < 0:
+        return None
+    l = pl[0]
+    n = _type_len(body.locals[l]) if l < len(body.locals) else None
+    if n is not None and '[u8]' not in str(body.locals[l]).replace('[u8; ', ''):
+        return n
+    ds = body.defs().get(l, [])
+    if len(ds) != 1:
+        return None
+    d = ds[0]
+    if d[2] == 'assign':
+        r = d[3]['r']
+        if r['k'] in ('use', 'cast') and r['a']:
+            if r['k'] == 'cast':
+                m = re.search(r'\[u8; (\d+)\]', str(r.get('from', '')))
+                if m:
+                    return int(m.group(1))
+            return static_len(body, r['a'][0], depth - 1)
+        if r['k'] in ('ref', 'copyderef'):
+            return static_len(body, {'o': 'c', 'p': [r['p'][0]]}, depth - 1) if len([e for e in r['p'][1:] if e != '*']) == 0 else None
+        return None
+    t = d[3]
+    nm = t.get('r') or t.get('f') or ''
+    if re.search(r'ops::Index(Mut)?<.*>::index(_mut)?$', nm) or nm in ('std::ops::Index::index', 'std::ops::IndexMut::index_mut'):
+        base, rng = t['a'][0], t['a'][1]
+        rl = op_local(rng)
+        rd = [x for x in body.defs().get(rl, []) if x[2] == 'assign'] if rl is not None else []
+        if len(rd) == 1 and rd[0][3]['r']['k'] == 'agg':
+            ak = str(rd[0][3]['r']['ak'])
+            ops = rd[0][3]['r']['a']
+            cs = [const_of(body, x) for x in ops]
+            if ak.endswith('ops::Range') and len(cs) == 2 and None not in cs:
+                return cs[1] - cs[0]
+            if ak.endswith('ops::RangeTo') and len(cs) == 1 and cs[0] is not None:
+                return cs[0]
+            bl = static_len(body, base, depth - 1)
+            if ak.endswith('ops::RangeFrom') and len(cs) == 1 and cs[0] is not None and bl is not None:
+                return bl - cs[0]
+            if ak.endswith('ops::RangeFull'):
+                return bl
+        return None
+    if re.search(r'::to_(le|be|ne)_bytes$', nm) or re.search(r'Deref(Mut)?>::deref(_mut)?$', nm) or re.search(r'::(as_slice|as_mut_slice|as_ref|as_mut|borrow)$', nm):
+        n2 = _type_len(body.locals[t['d'][0]])
+        if n2 is not None:
+            return n2
+        return static_len(body, t['a'][0], depth - 1) if t['a'] else None
+    return None
